@@ -2,6 +2,7 @@
 import concurrent.futures
 import json
 import os
+import time
 
 import proto_lib as pl
 import vlib
@@ -9,45 +10,61 @@ import vlib
 META = {
     "property_id": "C20",
     "level": "proof",
-    "technique": "Coq theorems over an executable model of gogenproto's Run/findProtos (rose-tree "
-                 "file system of any depth, all flag settings, all include lists) + in-kernel "
-                 "judgement of the real CLI's recorded protoc argument vectors against model and spec",
+    "technique": "Coq theorems over an executable model of gogenproto's Run/findProtos/protoFileHasGoPackage "
+                 "(rose-tree file system of any depth with file CONTENTS, all flag settings, all include lists) "
+                 "+ translator tie: generate.go is re-translated to Gallina on every check and proved, for all "
+                 "worlds and command lines, equal to a string-level hand model, which is proved to render the "
+                 "structured model + in-kernel judgement of the real CLI's recorded protoc argument vectors "
+                 "against both models and the tree-level specification",
     "design_ref": "DESIGN.md §4 C20",
-    "level_text": "Proof: ProtoProofs.v shows for every directory tree (any depth/size, sibling names "
-                  "distinct), every working directory, relative or absolute input directory, every "
-                  "include list with or without =prefix and all 8 settings of -recurse/-vt-proto/-grpc "
-                  "that the model of gogenproto/gen/generate.go produces one protoc argument vector "
-                  "whose file arguments are exactly the .proto files directly inside the input "
-                  "directory (all descendants with -recurse), each once; whose -I arguments are the "
-                  "input directory and the include directories; whose M mappings, for every requested "
-                  "plugin and only those, are exactly {relative path -> prefix joined with the relative "
-                  "directory, or the directory's Go package} over the protos below each include path "
-                  "that lack go_package; and that the vtproto/grpc output flags are present iff "
-                  "requested (Props/C20.v, closed under the global context). The model is tied to the "
-                  "current source by running the real CLI, built from the current tree, in generated "
-                  "Go modules with -protoc-path pointing at a recording stub and judging every recorded "
-                  "argv inside Coq against both the model and the tree-level specification.",
-    "level_note": "Trusted: Coq kernel + vm_compute; model fidelity checked by correspondence, not "
-                  "proved; filepath.WalkDir/Abs/Rel/Join and os.ReadDir order; module path + relative "
-                  "directory as the package oracle (PackageNameFromPath and go list cross-checked against it); the line scan for 'option go_package =' on canonically spelled files; "
-                  "Go harness, stub and the argv parser in ProtoJudge.v. No axioms.",
+    "coq_targets": ["ProtoJudge.vo", "ProtoTieLib.vo", "ProtoScan.vo", "ProtoExtra.vo", "ProtoStrProofs.vo",
+                    "ProtoRefine.vo"],
+    "level_text": "Proof: for every directory tree (any depth/size, sibling names distinct), every working "
+                  "directory, relative or absolute input directory, every include list with or without =prefix "
+                  "(prefix as typed, joined by filepath.Join) and all 8 settings of -recurse/-vt-proto/-grpc the "
+                  "model of gogenproto/gen/generate.go produces one protoc argument vector = plugin flags (each "
+                  "output flag once iff requested) ++ -I/M options ++ files: the files are exactly the regular "
+                  ".proto directly inside the input directory (all descendants with -recurse), each once; the -I "
+                  "options are the input directory and the include directories; on trees where the line scan of "
+                  "protoFileHasGoPackage is right about every proto (a predicate on file contents) every requested "
+                  "plugin, and no other, gets exactly the mappings {relative path -> Join(prefix, relative "
+                  "directory) | the directory's Go package} of the protos that do not declare option go_package. "
+                  "Without that predicate the mapping clause is refuted (C20_full_refuted; open findings "
+                  "C20-scan-*): the scan is a substring test (C20_scan_is_substring_test), right on the canonical "
+                  "spelling (C20_scan_right_on_canonical), wrong on commented-out / quoted / space-less / "
+                  "multi-line spellings. Props/C20.v, 22 theorems, closed under the global context. Tie to the "
+                  "source: (T) harness/cmd/xlate_proto + coq/ties/Tie_C20.v (gen_Run = s_run etc., semantic, "
+                  "re-proved on every check), (P) ProtoRefine.v s_argv = rendering of run for Clean input "
+                  "spellings, (C) the real CLI with a recording protoc stub on generated Go modules, judged in "
+                  "the kernel against specification, structured model and string-level model.",
+    "level_note": "Trusted: Coq kernel + vm_compute; ProtoPath.v/ProtoPrims.v as models of path/filepath, "
+                  "strings, WalkDir order and SkipDir semantics, os.ReadDir order, bufio.ScanLines (checked "
+                  "literally against every recorded argv); the lexer of ProtoLex.v as the meaning of 'declares "
+                  "option go_package'; module path + relative directory as the package oracle "
+                  "(PackageNameFromPath and go list cross-checked against it); the translator, Go harness, stub "
+                  "and the argv parser in ProtoJudge.v. No axioms. Open findings: C20-scan-says-declared, "
+                  "C20-scan-misses-declaration, C20-scan-both, C20-input-dir-equals.",
 }
+
+MIN_BUDGET = 55      # seconds of delta debugging per quick run (all reported cases together)
 
 TRUSTED = [
     "Coq 8.16.1 kernel and VM (vm_compute); no native_compute; no axioms",
-    "hand-written model coq/theories/ProtoModel.v of gogenproto/gen/generate.go (Run, findProtos, "
-    "protoFileHasGoPackage), tied by correspondence only",
-    "path/filepath (WalkDir visiting order and SkipDir semantics, Abs, Rel, Join, Dir, Ext), os.ReadDir, "
-    "os/exec passing argv unchanged",
+    "coq/theories/ProtoPath.v + ProtoPrims.v: string-level models of strings.Cut/SplitN/Contains/Index/HasSuffix, "
+    "filepath.Clean/Join/Abs/Rel/Dir/Ext, filepath.WalkDir (visiting order, SkipDir semantics), os.ReadDir order, "
+    "os.Lstat/Open, bufio.ScanLines, os/exec passing argv unchanged — every recorded argv is compared literally with "
+    "the string-level model built from them (coverage key exact_argv_equal_to_string_level_model)",
+    "harness/cmd/xlate_proto (go/parser -> Gallina; subset and the 'directory walk by hand' rule in its header) — "
+    "an edit that changes the meaning or leaves the subset breaks coq/ties/Tie_C20.v",
+    "coq/theories/ProtoLex.v lex / declares_go_package as the meaning of 'declares option go_package' (protobuf "
+    "lexical structure: white space, // and /* */ comments, string literals, identifiers, punctuation)",
     "the Go package of a directory = module path + relative directory (given to model and spec as the oracle); "
     "gencommon.PackageNameFromPath / packages.Load and `go list -e` are compared with it in a helper process on "
     "every built-in/corpus tree and every 4th generated tree (every tree in the thorough tier), and through the "
     "tool's own calls in every run (a wrong package is a mapping difference)",
-    "the strings.Contains line scan for `option go_package =` is assumed to decide 'declares go_package' for the "
-    "canonical spelling, wherever the option sits in the file (10 positions generated, gating); near-miss "
-    "spellings run as an informational out-of-domain stream",
-    "Go harness harness/cmd/c20 (tree generator, read-back of the tree from disk, CLI subprocess), the "
-    "recording stub harness/cmd/c20stub, the argv classifier/parser of ProtoJudge.v (parse_arg)",
+    "Go harness harness/cmd/c20 (tree generator, read-back of the tree and of the file contents from disk, CLI "
+    "subprocess), the recording stub harness/cmd/c20stub, the argv classifier/parser of ProtoJudge.v (parse_arg; "
+    "proved a left inverse of the renderer: C20_judge_parser_faithful)",
 ]
 
 
@@ -69,11 +86,36 @@ def nontrivial(j):
     return n_mappings(j) > 0 and (nested_proto(j) or len(j["spec"]["includes"]) > 0)
 
 
-def features(j, diff):
+SAYS_DECLARED = {"gp_commented", "gp_msg_comment", "gp_blockcomment", "gp_string"}     # scan yes, declares no
+MISSES_DECL = {"gp_nospace", "gp_spaces", "gp_tab", "gp_newline"}                        # scan no, declares yes
+NEAR_MISS = SAYS_DECLARED | MISSES_DECL
+
+
+def near_miss_kinds(spec):
+    return sorted({e.get("content") for e in spec["tree"]
+                   if e["kind"] == "file" and e["path"].endswith(".proto") and e.get("content") in NEAR_MISS})
+
+
+def canonicalised(spec):
+    """the same case with every near-miss spelling replaced by the canonical spelling of the same
+    meaning (declares -> `option go_package = "x";`, does not declare -> no option at all)"""
+    s = json.loads(json.dumps(spec))
+    for e in s["tree"]:
+        if e.get("content") in SAYS_DECLARED:
+            e["content"] = "nogp"
+        elif e.get("content") in MISSES_DECL:
+            e["content"] = "gp"
+    return s
+
+
+def features(j, diff, cause=None):
     s = j["spec"]
-    return {"kind": j["kind"].split("/")[0], "differs": ",".join(sorted(diff)),
-            "recurse": s["recurse"], "vt": s["vt"], "grpc": s["grpc"],
-            "has_includes": len(s["includes"]) > 0, "runs": j["runs"]}
+    f = {"kind": j["kind"].split("/")[0], "differs": ",".join(sorted(diff)),
+         "recurse": s["recurse"], "vt": s["vt"], "grpc": s["grpc"],
+         "has_includes": len(s["includes"]) > 0, "runs": j["runs"]}
+    if cause:
+        f.update(cause)
+    return f
 
 
 def distinct_trees(jsons):
@@ -90,19 +132,38 @@ def hist(it):
     return dict(sorted(h.items()))
 
 
+def decode_info(code):
+    """ProtoJudge.proto_case_info -> dict"""
+    v = code - 1
+    return {"wf": bool(v & 1), "dirs_ok": bool(v & 2), "scan_agrees": bool(v & 4), "exact": bool(v & 8),
+            "str_exact": bool(v & 16), "sig": v // 32}
+
+
+def judge_all(ctx, terms, tag):
+    """judge every case; returns (infos aligned with terms, err)"""
+    res, _, err = pl.judge(ctx, terms, fn="proto_case_info", tag=tag, shard=40)
+    if err:
+        return None, err
+    codes = dict(res)
+    if len(codes) != len(terms):
+        return None, "proto_case_info returned %d results for %d cases" % (len(codes), len(terms))
+    return [decode_info(codes[i]) for i in range(len(terms))], None
+
+
 def ood_stream(ctx, tools, quick):
-    """informational out-of-domain stream: never gates"""
+    """informational out-of-domain stream: never gates, counted in the evidence"""
     ood = {}
     t, jo, err = pl.run_harness(ctx, tools, "ood", ["-mode", "ood", "-n", 10 if quick else 200,
                                                     "-flagsets", 1 if quick else 2, "-oraclesample", 1000000])
     if not err and t:
-        b, _, err = pl.judge(ctx, t, tag="ood")
+        infos, err = judge_all(ctx, t, "ood")
         if not err:
-            codes = {k: c % 4 for k, c in b}
             for k, j in enumerate(jo):
-                d = ood.setdefault(j["kind"], {"cases": 0, "agree": 0, "spec_violated": 0, "model_differs": 0})
+                d = ood.setdefault(j["kind"], {"cases": 0, "agree": 0, "spec_violated": 0, "model_differs": 0,
+                                               "inside_theorem_domain": 0})
                 d["cases"] += 1
-                d[{0: "agree", 1: "spec_violated", 2: "model_differs"}[codes.get(k, 0)]] += 1
+                d[{0: "agree", 1: "spec_violated", 2: "model_differs"}[infos[k]["sig"] % 4]] += 1
+                d["inside_theorem_domain"] += int(infos[k]["wf"] and infos[k]["dirs_ok"] and infos[k]["scan_agrees"])
     return ood
 
 
@@ -139,27 +200,62 @@ def streams(ctx, tools, plan, tagsuffix="", seed=None):
     return terms, jsons, None
 
 
+def attribute(ctx, tools, jsons, failing):
+    """known causes of a failing case, decided by experiment where possible:
+    - the tree holds near-miss spellings of `option go_package` AND the same case with those
+      spellings canonicalised passes  ->  cause go_package_spelling (known findings C20-scan-*)
+    - the input directory spelling holds '=' (strings.Cut is applied to it as well)  ->
+      cause input_dir_equals (known finding C20-input-dir-equals)
+    returns {case index: cause dict}"""
+    causes, todo = {}, []
+    for i, sig in failing:
+        sp = jsons[i]["spec"]
+        if "=" in sp["input"]["path"]:
+            causes[i] = {"cause": "input_dir_equals"}
+        elif near_miss_kinds(sp):
+            todo.append(i)
+    if todo:
+        t, j, err = pl.run_specs(ctx, tools, "attrib", [canonicalised(jsons[i]["spec"]) for i in todo], real_oracle=False)
+        if not err and t:
+            bad, _, err = pl.judge(ctx, t, fn="proto_judge_sig", tag="attrib", shard=40)
+            if not err:
+                badset = {k for k, _ in bad}
+                for n, i in enumerate(todo):
+                    if n not in badset:
+                        kinds = set(near_miss_kinds(jsons[i]["spec"]))
+                        err_kind = ("both" if kinds & SAYS_DECLARED and kinds & MISSES_DECL else
+                                    "says-declared" if kinds & SAYS_DECLARED else "misses-declaration")
+                        causes[i] = {"cause": "go_package_spelling", "scan_error": err_kind,
+                                     "spellings": ",".join(sorted(kinds))}
+    return causes
+
+
 def run(ctx):
     ctx.trusted = TRUSTED
     ctx.assumptions = [
         "directory entries have distinct names, none empty, '.' or '..' (a file system)",
-        "the input directory and every include directory exist and are directories; their names hold no '='",
+        "the input directory and every include directory exist and are directories (theorem hypothesis dirs_ok; "
+        "other inputs are run and judged too, and counted)",
         "PackageNameFromPath succeeds for every directory holding a mapped proto (trees live in a Go module)",
-        "files declare go_package, if at all, as a top-level `option go_package = \"…\";` in that spelling, "
-        "anywhere in the file",
+        "mapping clause: the line scan is right about every *.proto of the tree (tree_agreesb, evaluated per case); "
+        "where it is not, the clause is false of the code (Props/C20.v C20_full_refuted; known findings C20-scan-*)",
+        "no line of a proto file is 64 KiB or longer (bufio.Scanner would stop there)",
     ]
     quick = ctx.tier == "quick"
     # reports without a concrete failing input are held back: failing inputs come first and get
     # the replay slots; a `no-failing-input-found` line is printed only if a widened run finds none
     held = []
-    pool = concurrent.futures.ThreadPoolExecutor(max_workers=2)
+    pool = concurrent.futures.ThreadPoolExecutor(max_workers=3)
     obl_future = pool.submit(ctx.proof_obligations)
+    ctx.harness_module()        # created once, before the parallel builds use it
+    tie_future = pool.submit(ctx.translator_tie, "xlate_proto", ["-repo", ctx.copy_repo()], "ProtoGen", "Tie_C20")
     tools, log = pl.build_tools(ctx)
     ok, detail = obl_future.result()
     ctx.log("proof obligations:", "OK" if ok else "BROKEN", "-", detail.splitlines()[0])
     if not ok:
         held.append(({"unchecked": "theorem file Props/C20.v", "detail": detail}, {"kind": "proof_obligation"}))
     if not tools:
+        tie_future.result()
         pool.shutdown()
         for rep, feat in held:
             ctx.report(rep, feat, failing_input=False)
@@ -167,38 +263,43 @@ def run(ctx):
                     "detail": log[-3000:]}, {"kind": "build"}, failing_input=False)
         return
     if quick:
-        # 8 built-in layouts under covering designs of the flag cube (31 runs), the corpus files,
-        # then one balanced flag setting per generated tree; real PackageNameFromPath on every 4th tree
+        # built-in layouts under covering designs of the flag cube, the near-miss / '=' corpus, the
+        # corpus files, then one balanced flag setting per generated tree; real PackageNameFromPath
+        # on every 4th tree
         plan = [("corpusfiles", None),
                 ("corpus", ["-mode", "corpus", "-flagsets", 4]),
-                ("random", ["-mode", "random", "-n", 70, "-flagsets", 1, "-oraclesample", 4]),
+                ("nearmiss", ["-mode", "nearmiss", "-flagsets", 1]),
+                ("random", ["-mode", "random", "-n", 60, "-flagsets", 1, "-oraclesample", 4]),
                 ("edge", ["-mode", "edge", "-n", 50, "-flagsets", 1, "-oraclesample", 4])]
     else:
         plan = [("corpusfiles", None),
                 ("corpus", ["-mode", "corpus", "-flagsets", 8]),
+                ("nearmiss", ["-mode", "nearmiss", "-flagsets", 8]),
                 ("random", ["-mode", "random", "-n", 400, "-flagsets", 8]),
                 ("edge", ["-mode", "edge", "-n", 250, "-flagsets", 8])]
     ood_future = pool.submit(ood_stream, ctx, tools, quick)
     terms, jsons, err = streams(ctx, tools, plan)
-    if err:
-        ood_future.result()
-        pool.shutdown()
-        for rep, feat in held:
-            ctx.report(rep, feat, failing_input=False)
-        ctx.report({"unchecked": "harness run", "detail": err}, {"kind": "harness"}, failing_input=False)
-        return
-    bad, exact, err = pl.judge(ctx, terms, fn="proto_judge_sig", count="exact_and_hyps", shard=40)
+    infos = None
+    if not err:
+        infos, err = judge_all(ctx, terms, "cases")
+    tie_ok, tie_detail = tie_future.result()
+    ctx.log("translator tie (gen_Run / gen_findProtos / gen_protoFileHasGoPackage = ProtoStrModel):",
+            "OK" if tie_ok else "BROKEN", "-", tie_detail.splitlines()[0] if tie_detail else "")
+    if not tie_ok:
+        ctx.cov["translator_tie"] = {"status": "BROKEN", "detail": tie_detail[-800:]}
+        held.append(({"unchecked": "translator tie coq/ties/Tie_C20.v against the regenerated ProtoGen.v "
+                                   "(gogenproto/gen/generate.go no longer means what ProtoStrModel.v says, or left "
+                                   "the translator's subset)", "detail": tie_detail[-3000:]}, {"kind": "translator_tie"}))
     ood = ood_future.result()
     pool.shutdown()
     if err:
         for rep, feat in held:
             ctx.report(rep, feat, failing_input=False)
-        ctx.report({"unchecked": "in-kernel evaluation of the correspondence", "detail": err},
-                   {"kind": "coq_eval"}, failing_input=False)
+        ctx.report({"unchecked": "harness run / in-kernel evaluation of the correspondence", "detail": err},
+                   {"kind": "harness"}, failing_input=False)
         return
-    n_main = len(jsons)
-    failing = [(i, sig) for i, sig in bad if sig % 4 == 1]
-    differs = [(i, sig) for i, sig in bad if sig % 4 != 1]
+    failing = [(i, f["sig"]) for i, f in enumerate(infos) if f["sig"] % 4 == 1]
+    differs = [(i, f["sig"]) for i, f in enumerate(infos) if f["sig"] % 4 == 2]
     # oracle cross-check (PackageNameFromPath vs go list vs module path + relative directory)
     obad, seen = [], set()
     for j in jsons:
@@ -206,11 +307,20 @@ def run(ctx):
         if j.get("oracle_mismatch") and key not in seen:
             seen.add(key)
             obad.append(j)
+    # failing inputs with a known cause (decided by experiment: the same case, canonical spelling)
+    causes = attribute(ctx, tools, jsons, failing)
+    for i, sig in failing:
+        if i in causes:
+            code, diff = pl.decode_sig(sig)
+            ctx.report({"case": pl.view(jsons[i]), "verdict": "recorded protoc invocation violates the specification",
+                        "differs_in": diff, "cause": causes[i]}, features(jsons[i], diff, causes[i]), failing_input=True)
+    known_idx = set(causes)
+    failing = [(i, sig) for i, sig in failing if i not in known_idx]
     widened = None
     if (held or differs) and not failing and not obad:
         # something broke but no case violates the specification yet: search wider before saying so
-        wplan = [("random", ["-mode", "random", "-n", 150, "-flagsets", 2, "-oraclesample", 4]),
-                 ("edge", ["-mode", "edge", "-n", 100, "-flagsets", 2, "-oraclesample", 4])]
+        wplan = [("random", ["-mode", "random", "-n", 120, "-flagsets", 2, "-oraclesample", 4]),
+                 ("edge", ["-mode", "edge", "-n", 80, "-flagsets", 2, "-oraclesample", 4])]
         wt, wj, werr = streams(ctx, tools, wplan, tagsuffix="-widened", seed=ctx.seed + 7919)
         widened = {"cases": len(wj), "failing_inputs": 0}
         if not werr and wt:
@@ -219,18 +329,24 @@ def run(ctx):
                 base = len(jsons)
                 terms += wt
                 jsons += wj
-                failing += [(base + i, sig) for i, sig in wbad if sig % 4 == 1]
+                wf = [(base + i, sig) for i, sig in wbad if sig % 4 == 1]
+                wc = attribute(ctx, tools, jsons, wf)
+                failing += [(i, sig) for i, sig in wf if i not in wc]
                 widened["failing_inputs"] = len(failing)
         ctx.log("widened search: %d further cases, %d failing input(s)" % (widened["cases"], widened["failing_inputs"]))
     also = [rep for rep, _ in held] + (
         [{"correspondence": "%d case(s) satisfy the specification but differ from the Coq model" % len(differs)}]
         if differs else [])
-    # 1. failing inputs (verdict 1), minimised, first
+    # 1. failing inputs (verdict 1), smallest first; the first is minimised within MIN_BUDGET seconds,
+    #    the next two get what is left of it (an unminimised failing input is still a failing input)
+    failing.sort(key=lambda x: (pl.spec_size(jsons[x[0]]["spec"]), x[0]))
+    differs.sort(key=lambda x: (pl.spec_size(jsons[x[0]]["spec"]), x[0]))
+    deadline = time.time() + (MIN_BUDGET if quick else 4 * MIN_BUDGET)
     for i, sig in failing:
         j = jsons[i]
         code, diff = pl.decode_sig(sig)
-        if ctx.nreplay < 3:
-            j, sig = pl.minimise(ctx, tools, j, sig)
+        if ctx.nreplay < 3 and time.time() < deadline:
+            j, sig = pl.minimise(ctx, tools, j, sig, deadline=deadline)
             code, diff = pl.decode_sig(sig)
         rep = {"case": pl.view(j),
                "verdict": "recorded protoc invocation violates the specification",
@@ -246,12 +362,14 @@ def run(ctx):
     # 2. only when no failing input exists after the widened run: the broken obligation / tie
     if not failing and not obad:
         for rep, feat in held:
+            rep = dict(rep)
+            rep["widened_search"] = widened
             ctx.report(rep, feat, failing_input=False)
         for i, sig in differs:
             j = jsons[i]
             code, diff = pl.decode_sig(sig)
-            if ctx.nreplay < 3:
-                j, sig = pl.minimise(ctx, tools, j, sig)
+            if ctx.nreplay < 3 and time.time() < deadline:
+                j, sig = pl.minimise(ctx, tools, j, sig, deadline=deadline)
                 code, diff = pl.decode_sig(sig)
             ctx.report({"case": pl.view(j),
                         "verdict": "recorded protoc invocation satisfies the specification but differs from the Coq model",
@@ -260,7 +378,9 @@ def run(ctx):
                        features(j, diff), failing_input=False)
     bad = failing + differs
 
+    n0 = len(infos)
     nt = [j for j in jsons if nontrivial(j)]
+    in_dom = [k for k in range(n0) if infos[k]["wf"] and infos[k]["dirs_ok"] and infos[k]["scan_agrees"]]
     ctx.cov.update({
         "evaluations": len(jsons),
         "distinct_trees": vlib.distinct_count([[j["spec"]["tree"], j["spec"]["cwd"], j["spec"]["input"],
@@ -272,7 +392,18 @@ def run(ctx):
                 "directory or at least one extra include directory; distinct by the whole case description",
         "exhaustive": False,
         "stub_ran_exactly_once": sum(1 for j in jsons if j["runs"] == 1),
-        "exact_argv_equal_to_model_and_theorem_hypotheses_hold": exact,
+        "inside_theorem_domain": len(in_dom),
+        "outside_theorem_domain": {
+            "tree_not_a_file_system": sum(1 for f in infos if not f["wf"]),
+            "input_or_include_directory_missing_or_a_file": sum(1 for f in infos if not f["dirs_ok"]),
+            "line_scan_wrong_about_some_proto": sum(1 for f in infos if not f["scan_agrees"]),
+            "by_stream": hist(jsons[k]["kind"] for k in range(n0) if k not in set(in_dom)),
+            "note": "predicates on the input alone (wf_nodeb, dirs_okb, tree_agreesb); these cases are judged "
+                    "against the specification all the same — a violation among them is a failing input",
+        },
+        "exact_argv_equal_to_structured_model": sum(1 for f in infos if f["exact"]),
+        "exact_argv_equal_to_string_level_model": sum(1 for f in infos if f["str_exact"]),
+        "exact_argv_equal_to_model_and_theorem_hypotheses_hold": sum(1 for k in in_dom if infos[k]["exact"]),
         "stub_cwd_equals_cli_cwd": sum(1 for j in jsons if j["stub_cwd"] == j["cwd_abs"]),
         "by_kind": hist(j["kind"] for j in jsons),
         "flag_settings": hist("recurse=%d vt=%d grpc=%d" % (j["spec"]["recurse"], j["spec"]["vt"], j["spec"]["grpc"])
@@ -280,25 +411,30 @@ def run(ctx):
         "input_form": hist(j["spec"]["input"]["form"] for j in jsons),
         "layout_input_cwd": hist("%s from %s" % (j["spec"]["input"]["path"], j["spec"]["cwd"]) for j in jsons),
         "include_count": hist(len(j["spec"]["includes"]) for j in jsons),
-        "include_kinds": hist(("abs" if i["dir"]["form"] == "abs" else "rel") + ("=prefix" if i["has_prefix"] else "")
+        "include_kinds": hist(i["dir"]["form"] + ("=prefix" if i["has_prefix"] else "")
                               for j in jsons for i in j["spec"]["includes"]),
+        "include_prefixes": hist(i["prefix"] for j in jsons for i in j["spec"]["includes"] if i["has_prefix"]),
         "tree_depth": hist(j["depth"] for j in jsons),
         "tree_files": hist(j["n_files"] for j in jsons),
         "file_args": hist(sum(1 for a in j["argv"] if not a.startswith("-")) for j in jsons),
         "mapping_args": hist(min(n_mappings(j), 20) for j in jsons),
-        "go_package_option_positions": hist(e.get("content") for t in distinct_trees(jsons) for e in t
+        "go_package_option_spellings": hist(e.get("content") for t in distinct_trees(jsons) for e in t
                                             if e["kind"] == "file" and e["path"].endswith(".proto")),
         "oracle_dirs_checked_against_PackageNameFromPath": sum(
             len(d) for d in {json.dumps(j["oracle_package_name_from_path"], sort_keys=True): j["oracle_package_name_from_path"]
                              for j in jsons if j.get("oracle_package_name_from_path")}.values()),
+        "known_cause_failing_inputs": hist(json.dumps(c, sort_keys=True) for c in causes.values()),
         "widened_search": widened,
         "oracle_mismatches": len(obad),
         "out_of_domain_informational": ood,
         "samples": [pl.view(j) for j in (jsons[1:2] + [j for j in jsons if j["kind"] != "corpus"][:2])],
         "disagreements": len(bad),
     })
-    ctx.log("correspondence: %d cases (%d distinct non-trivial), %d exact argv matches, %d disagreement(s); ood %s"
-            % (len(jsons), ctx.cov["distinct_nontrivial"], exact, len(bad), json.dumps(ood)))
+    ctx.cov.setdefault("translator_tie", {})
+    ctx.log("correspondence: %d cases (%d distinct non-trivial, %d inside the theorems' domain), %d exact argv matches "
+            "(%d with the string-level model), %d known-cause failing input(s), %d disagreement(s); ood %s"
+            % (len(jsons), ctx.cov["distinct_nontrivial"], len(in_dom), ctx.cov["exact_argv_equal_to_structured_model"],
+               ctx.cov["exact_argv_equal_to_string_level_model"], len(causes), len(bad), json.dumps(ood)))
 
 
 def replay(ctx, path):
